@@ -20,9 +20,9 @@ from concurrent.futures import ProcessPoolExecutor
 
 HERE = os.path.dirname(os.path.abspath(__file__))
 VERIF = os.path.dirname(HERE)
-OUT = os.path.join(VERIF, "out")
+OUT = os.environ.get("VERIF_OUT_DIR") or os.path.join(VERIF, "out")
 REPLAYS = os.path.join(OUT, "replays")
-EVIDENCE = os.path.join(VERIF, "evidence")
+EVIDENCE = os.environ.get("VERIF_EVIDENCE_DIR") or os.path.join(VERIF, "evidence")
 KNOWN_FILE = os.path.join(VERIF, "KNOWN_FINDINGS.txt")
 REGRESSIONS = os.path.join(VERIF, "regressions")
 PYTHON = sys.executable
@@ -354,7 +354,7 @@ def write_replay(prop, world_name, seed, res, ops, run, repo):
     }
     path = os.path.join(REPLAYS, "%s-%s-%d.json" % (prop, world_name, res["run_seed"]))
     with open(path, "w") as f:
-        json.dump(doc, f, indent=1, sort_keys=True)
+        json.dump(doc, f, indent=1)  # never sort: member order of payloads is part of the trace
     return path, doc
 
 
